@@ -2,8 +2,7 @@
 //! The specification supplies, per declaration, the set of tokens a rename must rewrite (`ren`).
 use ide::{Analysis, FileId, FilePos, GotoDefinitionResult};
 use serde_json::{json, Value};
-use std::io::{BufRead, Write};
-use std::sync::atomic::{AtomicUsize, Ordering};
+use std::io::Write;
 use std::sync::{Arc, Mutex};
 use syntax::lexer::GleamLexer;
 use verif_harness::programs::{self, Program, LIB_NAME, LIB_TEXT};
@@ -210,23 +209,15 @@ fn main() {
     let arg = |name: &str| args.iter().position(|a| a == name).and_then(|i| args.get(i + 1)).cloned();
     let threads: usize = arg("--threads").and_then(|s| s.parse().ok()).unwrap_or(16);
     let seed: u64 = std::env::var("VERIF_SEED").ok().and_then(|s| s.parse().ok()).unwrap_or(1);
-    let cases: Vec<Value> = std::io::stdin().lock().lines().filter_map(|l| {
-        let l = l.unwrap();
-        if l.trim().is_empty() { None } else { Some(serde_json::from_str(&l).expect("case json")) }
-    }).collect();
-    let cases = Arc::new(cases);
-    let next = Arc::new(AtomicUsize::new(0));
-    let results = Arc::new(Mutex::new(Vec::<Value>::new()));
+    let cases = verif_harness::util::CaseStream::stdin();
+    let results = verif_harness::util::Results::new(3);
     let totals = Arc::new(Mutex::new((0u64, 0u64, 0u64, Vec::<String>::new(), 0u64)));
     let mut hs = vec![];
     for _ in 0..threads {
-        let (cases, next, results, totals) = (cases.clone(), next.clone(), results.clone(), totals.clone());
+        let (cases, results, totals) = (cases.clone(), results.clone(), totals.clone());
         hs.push(std::thread::Builder::new().stack_size(32 << 20).spawn(move || loop {
-            let ci = next.fetch_add(1, Ordering::Relaxed);
-            if ci >= cases.len() {
-                break;
-            }
-            let case = &cases[ci];
+            let Some((ci, case_v)) = cases.next() else { break };
+            let case = &case_v;
             let mut rng = Rng::new(seed ^ (ci as u64).wrapping_mul(104729));
             let prog = programs::render(case, &mut rng, case["plain"].as_bool().unwrap_or(ci % 3 == 0));
             let mut local = vec![];
@@ -245,7 +236,7 @@ fn main() {
             }
             t.4 += 1;
             drop(t);
-            results.lock().unwrap().extend(local);
+            results.extend(local);
         }).unwrap());
     }
     for h in hs {
@@ -253,17 +244,8 @@ fn main() {
     }
     let so = std::io::stdout();
     let mut so = so.lock();
-    let res = results.lock().unwrap();
-    let mut per: std::collections::BTreeMap<String, usize> = Default::default();
-    for r in res.iter() {
-        let c = per.entry(r["features"].to_string()).or_default();
-        *c += 1;
-        if *c <= 3 {
-            writeln!(so, "{r}").unwrap();
-        }
-    }
+    let (counts, _) = results.emit(&mut so);
     let t = totals.lock().unwrap();
-    let counts: Vec<Value> = per.iter().map(|(k, v)| json!([k, v])).collect();
     writeln!(so, "{}", json!({"kind": "summary", "programs": t.4, "renames_tried": t.0, "refused": t.1, "edit_sets_equal": t.2,
         "refusal_messages": t.3, "mismatch_classes": counts})).unwrap();
 }
